@@ -56,6 +56,8 @@ TOL_ADDITIVE = 1e-10   # additive kernels use Newton-Girard sums (cancellation):
 TOL_NODE = 1e-10       # spline value at grid nodes (measured maximum 4.6e-14)
 # spline, full domain, default density 8, relative to max|f| / max|grad f| on the sample (measured maxima in comments)
 BOUND_VAL_D8 = 5e-2    # measured <= 4.6e-3
+BOUND_VAL_CLUSTER = 5e-4   # clustered control points, small length scales, density 8: measured <= 1.1e-5
+BOUND_GRAD_CLUSTER = 1e-2  # measured <= 3.6e-4
 BOUND_GRAD_D8 = 0.5    # measured <= 0.13  (natural boundary condition: O(h) gradient error at the domain edge)
 BOUND_VAL_INT_D8 = 1e-2   # central half of every bound interval, default density: measured <= 7.4e-4
 BOUND_GRAD_INT_D8 = 1e-1  # measured <= 1.1e-2
@@ -929,8 +931,46 @@ def _node_points(ev, N1, lo, hi, rng, n):
     return X, g, consistent
 
 
+def _sp_cluster(rec, rng, fam):
+    """Length scales far below the feature range (range / l = 14 ... 30; the package minimum is 0.01) with all control points
+    in the middle fifth of every bound interval: the mapped function must still be the GP function over the whole domain,
+    where power-law kernel tails (rational quadratic) are far from negligible."""
+    from ciderpress.dft import xc_evaluator as xe
+    info = _build_spline_kernel(fam, rng)
+    N1, cols, maxdim = info["N1"], info["cols"], info["maxdim"]
+    if maxdim > 2:
+        return
+    fl, lo, hi = _rand_bounds(rng, N1)
+    ran = hi - lo
+    u = _logu(rng, 14.0, 30.0 if maxdim == 1 else 20.0, size=len(cols))
+    kern = info["make"](ran[cols] / u)
+    nctrl = 24
+    ctrl = lo + ran * (0.4 + 0.2 * rng.uniform(size=(nctrl, N1)))
+    alpha = rng.normal(size=nctrl)
+    kev = xe.KernelEvaluator(kern, ctrl, alpha)
+    X = lo + ran * rng.uniform(size=(800, N1))
+    X[:200] = lo + ran * (0.35 + 0.3 * rng.uniform(size=(200, N1)))
+    f, df = kev(X)
+    fs, ds = max(float(np.max(np.abs(f))), 1e-300), max(float(np.max(np.abs(df))), 1e-300)
+    mech = "map_tools.%s[%s,clustered]" % (info["mapper"], fam)
+    ev = _map(info, kern, ctrl, alpha, fl, density=8)
+    _, g, consistent = _node_points(ev, N1, lo, hi, rng, 2)
+    rec.require("spline_grids_cover_bounds", consistent and all(
+        abs(g[i][0] - lo[i]) < 1e-12 and abs(g[i][1] - hi[i]) < 1e-12 for i in g), mechanism=mech + ":grid-bounds")
+    f1, d1 = ev(X)
+    det = {"kernel": info["label"], "u": u.tolist()}
+    rec.check("spline_value_clustered_controls", _err(f1, f, fs), BOUND_VAL_CLUSTER, mechanism=mech + ":spline-bound-value", detail=det)
+    rec.check("spline_gradient_clustered_controls", _err(d1, df, ds), BOUND_GRAD_CLUSTER, mechanism=mech + ":spline-bound-gradient",
+              detail=det)
+    rec.tag("control_points", "clustered,range/l=%d" % int(np.max(u)))
+    rec.nontrivial("cluster|%s|%s" % (info["label"], np.round(u, 3).tolist()))
+
+
 def _run_sp(case, rec, rng):
     fam = case["family"]
+    if fam in ("rbf-simple", "subrbf-simple", "arbf-o1", "arbf-o2", "addrq", "addllrbf"):
+        for d in range(2):
+            _sp_cluster(rec, rng, fam)
     for d in range(case["ndraw"]):
         if fam in ("linear", "linear-nctrl"):
             _sp_linear(rec, rng, general=fam == "linear-nctrl")
